@@ -9,4 +9,5 @@ fi
 prop="$1"; tier="${2:-${VERIF_TIER:-quick}}"; shift; shift
 # scratch copies live outside /repo and /verif and are removed by gosym itself
 export GOSYM_TMP="${TMPDIR:-/tmp}"
-exec /verif/bin/gosym -prop "$prop" -tier "$tier" "$@"
+repo="${GOSYM_REPO:-/repo}"
+exec /verif/bin/gosym -repo "$repo" -prop "$prop" -tier "$tier" ${GOSYM_OUT:+-out "$GOSYM_OUT"} "$@"
